@@ -395,6 +395,8 @@ type c04Link struct {
 	c2s, s2c []c04Frame
 	// holdID: the server's answer with this id is kept back until release
 	holdID  uint32
+	holdSvc uint32 // 0: any service
+	holdAct uint32 // 0: any action
 	holdOn  bool
 	heldMsg []byte
 	heldSig chan struct{}
@@ -421,7 +423,8 @@ func (h *c04Harness) newLink() (*c04Link, error) {
 	l.ss.onFrame = func(m *net.Message) {
 		l.mu.Lock()
 		l.s2c = append(l.s2c, c04Frame{m.Header.Type, m.Header.Service, m.Header.Object, m.Header.Action, m.Header.ID, m.Payload})
-		if l.holdOn && m.Header.ID == l.holdID && l.heldMsg == nil {
+		if l.holdOn && m.Header.ID == l.holdID && l.heldMsg == nil &&
+			(l.holdSvc == 0 || m.Header.Service == l.holdSvc) && (l.holdAct == 0 || m.Header.Action == l.holdAct) {
 			l.heldMsg = c04Bytes(m)
 			l.mu.Unlock()
 			select {
@@ -452,7 +455,7 @@ func (h *c04Harness) newLink() (*c04Link, error) {
 func (l *c04Link) releaseHeld() {
 	l.mu.Lock()
 	b := l.heldMsg
-	l.heldMsg, l.holdOn = nil, false
+	l.heldMsg, l.holdOn, l.holdSvc, l.holdAct = nil, false, 0, 0
 	l.mu.Unlock()
 	if b != nil {
 		l.cs.Inject(b)
@@ -697,6 +700,193 @@ func (h *c04Harness) crossingByRelay(res *hx.Result, l *c04Link, k int) {
 	res.Dist("crossing:reply-held")
 }
 
+// sharedEndpoint: two bus clients on ONE endpoint (what bus.Cache / NewCachedSession proxies and
+// Client.Channel()+NewClient give): message ids are unique per client only, so the first call of
+// each client carries the same id.  Client A's answer is held by the relay while client B's
+// same-numbered call to another service or action is answered: each must return its own result.
+// Oracle only: the model of Call.v has one client per connection.
+func (h *c04Harness) sharedEndpoint(res *hx.Result, k int, variant int) {
+	l, err := h.newLink()
+	if err != nil {
+		h.note("shared endpoint: " + err.Error())
+		return
+	}
+	defer l.ep.Close()
+	ca := bus.NewClient(bus.NewChannel(l.ep, bus.DefaultCap()))
+	cb := bus.NewClient(bus.NewChannel(l.ep, bus.DefaultCap()))
+	argA, argB := fmt.Sprintf("sha%d", k), fmt.Sprintf("shb%d", k)
+	type out struct {
+		s   string
+		raw []byte
+		err error
+	}
+	// B's call: another service (same action), or another action of the same object
+	svcB, actB, wantB := uint32(3), uint32(100), "re:"+argB+"#1"
+	if variant == 1 {
+		svcB, actB, wantB = 1, 101, ""
+	}
+	l.mu.Lock()
+	l.holdID, l.holdSvc, l.holdAct, l.holdOn, l.heldMsg = 3, 1, 100, true, nil // both clients draw id 3 first
+	l.mu.Unlock()
+	ra, rb := make(chan out, 1), make(chan out, 1)
+	go func() {
+		o, e := ca.Call(nil, 1, 1, 100, c04Str(argA))
+		s, _ := c04DecodeStr(o)
+		ra <- out{s, o, e}
+	}()
+	select {
+	case <-l.heldSig:
+	case <-time.After(c04Deadline):
+		h.note("shared endpoint: the answer to client A's call was not seen by the relay")
+	}
+	go func() {
+		o, e := cb.Call(nil, svcB, 1, actB, c04Str(argB))
+		s, _ := c04DecodeStr(o)
+		rb <- out{s, o, e}
+	}()
+	var a, b out
+	var aEarly bool
+	select {
+	case b = <-rb:
+	case <-time.After(c04Deadline):
+		res.Fail("call-without-outcome", "two clients on one endpoint: client B's call did not return while the answer to client A's same-numbered call was held on the wire")
+	}
+	// A's own answer is still held: A must not have returned yet
+	select {
+	case a = <-ra:
+		aEarly = true
+	case <-time.After(20 * time.Millisecond):
+	}
+	l.releaseHeld()
+	if !aEarly {
+		select {
+		case a = <-ra:
+		case <-time.After(c04Deadline):
+			res.Fail("call-without-outcome", "two clients on one endpoint: client A's call did not return after its answer was released")
+		}
+	}
+	// the ids actually used, from the relay's record
+	l.mu.Lock()
+	var ids []uint32
+	for _, f := range l.c2s {
+		if f.ty == net.Call {
+			ids = append(ids, f.id)
+		}
+	}
+	l.mu.Unlock()
+	desc := fmt.Sprintf("two bus clients sharing one endpoint, first call of each (message ids on the wire %v): client A Hello(%q) to service 1 action 100, its Reply held by the relay; client B call to service %d action %d with %q answered first; then A's Reply released. A returned %q (err %v, before its own answer was delivered: %v), B returned %q (err %v)",
+		ids, argA, svcB, actB, argB, a.s, a.err, aEarly, b.s, b.err)
+	if a.err != nil || a.s != "re:"+argA+"#1" || aEarly {
+		res.Fail("wrong-or-foreign-result", desc+" -- A's own result is "+fmt.Sprintf("%q", "re:"+argA+"#1"))
+	} else if b.err != nil || b.s != wantB {
+		res.Fail("wrong-or-foreign-result", desc+" -- B's own result is "+fmt.Sprintf("%q", wantB))
+	}
+	if n := h.cnt.get("s1:hello:" + argA); n != 1 {
+		res.Fail("successful-call-exec-count", fmt.Sprintf("%s -- A's method body ran %d times", desc, n))
+	}
+	res.Count(desc, true)
+	res.Dist("shared-endpoint:same-id-calls")
+}
+
+// directPath: an object reached through bus.DirectClient (the local proxy every generated
+// CreateXxx() returns) is not behind server.handle's filter.  The six frame types that are not
+// Call/Post, aimed at a method with a valid argument, and a real client Call cancelled while its
+// method runs (method without parameters: the client's Cancel frame has an empty payload) must not
+// run the method (again) and must not be answered with a Reply.  Oracle only.
+func (h *c04Harness) directPath(res *hx.Result, noncallKnown bool) {
+	fail := func(kind, detail string) {
+		if noncallKnown {
+			res.FailKnown(kind, detail, "noncall_runs")
+		} else {
+			res.Fail(kind, detail)
+		}
+	}
+	cnt := &c04Counters{execs: map[string]int{}}
+	dc := bus.DirectClient(pong.PingPongObject(&c04Pong{7, cnt}))
+	ep := dc.Channel().EndPoint()
+	var mu sync.Mutex
+	var got []c04Frame
+	q := make(chan *net.Message, 64)
+	go func() {
+		for m := range q {
+			mu.Lock()
+			got = append(got, c04Frame{m.Header.Type, m.Header.Service, m.Header.Object, m.Header.Action, m.Header.ID, m.Payload})
+			mu.Unlock()
+		}
+	}()
+	ep.MakeHandler(func(hdr *net.Header) (bool, bool) { return true, true }, q, nil)
+	callT := func(c bus.Client, svc, act uint32, p []byte) ([]byte, error) {
+		type r struct {
+			o []byte
+			e error
+		}
+		ch := make(chan r, 1)
+		go func() { o, e := c.Call(nil, svc, 1, act, p); ch <- r{o, e} }()
+		select {
+		case x := <-ch:
+			return x.o, x.e
+		case <-time.After(c04Deadline):
+			return nil, errors.New("no outcome within the deadline")
+		}
+	}
+	if o, e := callT(dc, 7, 100, c04Str("dcsanity")); e != nil || string(o) != string(c04Str("re:dcsanity#1")) {
+		res.Fail("wrong-or-foreign-result", fmt.Sprintf("DirectClient: Hello(\"dcsanity\") returned %x, %v", o, e))
+	}
+	for _, ty := range []uint8{net.Reply, net.Error, net.Event, net.Capability, net.Cancel, net.Cancelled} {
+		arg := fmt.Sprintf("dc%d", ty)
+		id := uint32(0x5000 + 2*uint32(ty))
+		ep.Send(net.NewMessage(net.NewHeader(ty, 7, 1, 100, id), c04Str(arg)))
+		callT(dc, 7, 101, c04Str("sync")) // same mailbox: everything before it has been handled
+		time.Sleep(time.Millisecond)
+		n := cnt.get("s7:hello:" + arg)
+		replies := 0
+		mu.Lock()
+		for _, f := range got {
+			if f.id == id && f.ty == net.Reply {
+				replies++
+			}
+		}
+		mu.Unlock()
+		desc := fmt.Sprintf("%s frame (type %d) with payload %x sent through a bus.DirectClient endpoint to PingPong.Hello (service 7 object 1 action 100 id %d): the method body ran %d time(s), %d Reply frame(s) came back",
+			c04TypeNames[ty], ty, c04Str(arg), id, n, replies)
+		if n != 0 || replies != 0 {
+			fail("noncall-ran-method", desc)
+		}
+		res.Count(desc, true)
+		res.Dist("direct-path:" + c04TypeNames[ty])
+	}
+	// a real call, cancelled while its method runs
+	ccnt := &c04Counters{execs: map[string]int{}}
+	dclk := bus.DirectClient(clock.TimestampObject(&c04Clock{ccnt}))
+	held, release := ccnt.hold("s2:nanoseconds")
+	cancel := make(chan struct{})
+	ret := make(chan error, 1)
+	go func() { _, e := dclk.Call(cancel, 8, 1, 100, nil); ret <- e }()
+	select {
+	case <-held:
+	case <-time.After(c04Deadline):
+		h.note("direct path: Nanoseconds was not reached")
+	}
+	close(cancel)
+	var callErr error
+	select {
+	case callErr = <-ret:
+	case <-time.After(c04Deadline):
+		res.Fail("call-without-outcome", "DirectClient: a cancelled call of Timestamp.Nanoseconds did not return")
+	}
+	time.Sleep(2 * time.Millisecond) // the Cancel frame is on its way to the object's mailbox
+	release()
+	callT(dclk, 8, 100, nil) // barrier through the same mailbox; one execution of its own
+	time.Sleep(time.Millisecond)
+	ran := ccnt.get("s2:nanoseconds") - 1
+	desc := fmt.Sprintf("Client.Call(cancel, 8, 1, 100, nil) on a bus.DirectClient of clock.TimestampObject, cancel closed while Nanoseconds() runs: the call returned %v and the method body ran %d time(s) for it", callErr, ran)
+	if ran != 1 {
+		fail("cancelled-call-ran-again", desc)
+	}
+	res.Count(desc, true)
+	res.Dist("direct-path:cancelled-call")
+}
+
 // ---------- defect probes (the witnesses of C04_refuted_*) ----------
 
 func (h *c04Harness) probeSwitches(res *hx.Result) (noncall, postAnswered bool) {
@@ -832,6 +1022,13 @@ func runC04(res *hx.Result, rng *hx.Rng, tier string, outdir string) {
 	for i := 0; i < nraw; i++ {
 		k++
 		runRaw(c04GenRaw(rng, k))
+	}
+
+	// (iv) objects that are not behind the server's connection filter
+	h.directPath(res, noncall)
+	// (v) two clients on one endpoint, same-numbered calls, answers crossing
+	for i := 0; i < 6; i++ {
+		h.sharedEndpoint(res, i, i%2)
 	}
 
 	// (ii) concurrent callers over 1..3 connections, (iii) crossing replies
